@@ -61,6 +61,14 @@ Theorem C08_exit_order_is_the_source_sync : forall eng pr m l ev s, eng <> Async
 Proof. exact exit_skeleton_sync_bridge. Qed.
 Print Assumptions C08_exit_order_is_the_source_sync.
 
+(* what is scheduled when a state is entered - first one timer per delayed transition in the order of the `after` map, then the
+   invoked services in order, a service that is not registered raising ImplementationMissingError before it is started - is read
+   off _schedule_state_tasks (shared by both engines) on every run and is the model's sched_run *)
+Theorem C08_schedule_is_the_source : forall eng m x s,
+  run_schedule_skeleton GenGeom.schedule_skeleton eng m x s = sched_run eng m x s.
+Proof. exact schedule_skeleton_bridge. Qed.
+Print Assumptions C08_schedule_is_the_source.
+
 (* REFUTED at HEAD (finding F8): the queued AfterEvent is matched by type only.  State a (after 50 ms -> timeout);
    a slow action (80 ms) is processed while a is active, with LEAVE and BACK queued behind it: the expiry falls due
    during the slow action and queues behind them; a is left and re-entered (at t = 81), and the stale expiry then
